@@ -39,7 +39,11 @@ lg_weight_(lg_weight),
 hra_(hra),
 // random initial coin (as in the deserializing constructor): merge() can adopt an odd state_ from the other
 // compactor, and the next compaction then flips this coin without drawing one
+#ifdef DATASKETCHES_VERIF
+coin_(random_utils::verif_random_bit()),
+#else
 coin_(random_utils::random_bit()),
+#endif
 sorted_(sorted),
 section_size_raw_(static_cast<float>(section_size)),
 section_size_(section_size),
